@@ -24,6 +24,10 @@ MUT = {
 }
 
 
+# templates of non-commutative binary nodes whose two operands have the same shape
+SWAPPABLE = ['({0} - {1})', '({0} / {1})', 'cross({0}, {1})', 'outer({0}, {1})', 'dot({0}, {1})', '({0} @ {1})']
+
+
 def render(t):
     if isinstance(t, str):
         return t
@@ -376,6 +380,29 @@ class Gen:
             w = self.S(1)
             body = ('(({0} * {2}) + ({1} * {2}))', t, t2, w) if r.random() < 0.6 else ('({0} + {1})', t, t2)
             body = self.integrand_with_bfuns(body)
+        elif stream == 'mirror':
+            # operand-swapped twins: for a non-commutative node N = op(a, b) the same form also contains the
+            # mirrored node op(b, a) (the merge-only-if-identical conjunct for '-', '/', cross, outer, products)
+            mode = r.random()
+            if mode < 0.35:
+                a, b = self.S(r.randint(1, 2)), self.S(r.randint(1, 2))
+                t = (r.choice(['({0} - {1})', '({0} / {1})']), a, b)
+            elif mode < 0.5 and self.d == 3:
+                a, b = self.Vn(1, 3), self.Vn(1, 3)
+                t = ('inner(cross({0}, {1}), {2})', a, b, self.Vn(1, 3))
+            else:
+                t = self.S(max(depth, 2))
+            pos = [p for p in positions(t) if not isinstance(get_at(t, p), str) and get_at(t, p)[0] in SWAPPABLE]
+            if not pos:
+                t = ('({0} - {1})', t, self.S(2))
+                pos = [()]
+            p = r.choice(pos)
+            node = get_at(t, p)
+            t2 = set_at(t, p, (node[0], node[2], node[1]) + tuple(node[3:]))
+            w = self.S(1)
+            body = r.choice([('(({0} * {2}) + ({1} * {2}))', t, t2, w), ('({0} * {1})', t, t2), ('({0} + {1})', t, t2),
+                             ('(({0} - {1}) * {2})', t, t2, w), ('({0} / ({1} + 2.0))', t, t2)])
+            body = self.integrand_with_bfuns(body)
         elif stream == 'malformed':
             t = self.S(depth)
             bad = r.choice(['(-{0})', 'Dx(sin({0}), 0)', 'Dx(Dx({0} * {0}, 0, 2), 0)', 'inner({0}, {0})',
@@ -401,6 +428,15 @@ LIBRARY = [
     'V = mass_vf(1)', 'V = mass_vf(2)', 'V = mass_vf(3)', 'V = stiffness_vf(1)', 'V = stiffness_vf(2)',
     'V = stiffness_vf(3)', 'V = heat_st_vf(2)', 'V = heat_st_vf(3)', 'V = wave_st_vf(2)', 'V = wave_st_vf(3)',
     'V = divdiv_vf(2)', 'V = divdiv_vf(3)', 'V = L2functional_vf(2)', 'V = L2functional_vf(3, physical=True)',
+    # the same difference / quotient / cross product in both operand orders (merge only if identical)
+    'V = VForm(2)\nu, v = V.basisfuns()\nf = V.input("f")\ng = V.input("g", shape=(2,))\n'
+    'V.add(((f * u - g[0] * v) * g[1] + (g[0] * v - f * u) * f) * dx)',
+    'V = VForm(2)\nu, v = V.basisfuns()\nf = V.input("f")\nc = V.parameter("c")\n'
+    'V.add((((f + c) / (u * v + 2.0)) + ((u * v + 2.0) / (f + c))) * dx)',
+    'V = VForm(3)\nu, v = V.basisfuns()\nB = V.input("B", shape=(3,))\nE = V.input("E", shape=(3,))\n'
+    'V.add((inner(cross(B, E), grad(u)) * v + inner(cross(E, B), grad(v)) * u) * dx)',
+    'V = VForm(2)\nu, v = V.basisfuns()\nM = V.input("M", shape=(2, 2))\ncm = V.parameter("cm", shape=(2, 2))\n'
+    'V.add((tr(dot(M, cm)) * u * v + dot(cm, M)[0, 1] * u * v + outer(grad(u), grad(v))[0, 1] - outer(grad(v), grad(u))[0, 1]) * dx)',
     # space-time split with repeated time derivatives of a space derivative (dims 2 and 3, u and v)
     'V = VForm(3, spacetime=True)\nu, v = V.basisfuns()\nV.add(inner(grad(u.dt(2)), grad(v)) * dx)',
     'V = VForm(2, spacetime=True)\nu, v = V.basisfuns()\nV.add(inner(grad(u.dt(2)), grad(v)) * dx)',
@@ -439,9 +475,11 @@ LIBRARY = [
 ]
 
 
-def gen_specs(rng, n_grammar, n_twins, n_malformed, max_depth=4):
+def gen_specs(rng, n_grammar, n_twins, n_malformed, max_depth=4, n_mirror=None):
     g = Gen(rng, max_depth)
     specs = [{'code': c, 'stream': 'library', 'kind': 'library'} for c in LIBRARY]
+    for _ in range(n_twins // 2 if n_mirror is None else n_mirror):
+        specs.append(g.form('mirror'))
     for _ in range(n_grammar):
         specs.append(g.form('grammar'))
     for _ in range(n_twins):
